@@ -356,6 +356,36 @@ Proof.
 Qed.
 Print Assumptions C01_accepts_refuted_conditional_typename.
 
+(* F23 (C04, repaired in /repo 568dfd8): at a position of interface type Animal (which implements Node) a
+   fragment `... on Node` used to become a variant class for "Node" and its fields were lost for the
+   objects; now it is no variant and its fields go into every class.  The selection is inside op_ok. *)
+Definition S23 : schema :=
+  {| s_types := [("Query", DObject [] [("animal", TNamed "Animal")]);
+                 ("Node", DInterface [] [("id", TNonNull (TNamed "ID"))]);
+                 ("Animal", DInterface ["Node"] [("id", TNonNull (TNamed "ID")); ("name", TNamed "String")]);
+                 ("Dog", DObject ["Node"; "Animal"] [("id", TNonNull (TNamed "ID")); ("name", TNamed "String")])] ++ std;
+     s_query := Some "Query"; s_mutation := None; s_subscription := None |}.
+Definition sels23 : list sel :=
+  [SField None "animal" false []
+     (Some [SField None "__typename" false [] None;
+            SInline (Some "Node") false [SField None "id" false [] None];
+            SField None "name" false [] None])].
+Example C01_super_interface_condition_regression :
+  exists own pub' cls,
+    op_parse 10 C0 S23 [] "query" "Q" [] sels23 = Ok (own, pub', false) /\
+    all_classes 10 C0 S23 [] (DOp "query" "Q" [] sels23) = Ok cls /\
+    op_ok 10 true C0 S23 [] "Query" sels23 = true /\ no_basemodel own = true /\
+    map c_name cls = ["Q"; "QAnimalAnimal"] /\
+    (let j := JObj [("animal", JObj [("__typename", JStr "Dog"); ("id", JStr "1"); ("name", JStr "Rex")])] in
+     conf_op 10 S23 [] "Query" sels23 j = true /\
+     accepts 12 cls (schema_enums S23) (AClass "Q") j = true /\ covers 12 cls (AClass "Q") j = true).
+Proof.
+  do 3 eexists.
+  split; [vm_compute; reflexivity|].
+  split; [vm_compute; reflexivity|].
+  vm_compute. repeat split.
+Qed.
+
 (* ---- non-vacuity: a nested, aliased, abstract selection that IS accepted and covered ---- *)
 Example C01_full_hypotheses_satisfiable :
   exists cls,
